@@ -35,7 +35,7 @@ let string_of_z z =
   end
 
 let kind_of_int = function 0 -> Plain | 1 -> Fixed | _ -> Varying
-let ty_of_int = function 0 -> TBlob | 1 -> TUInt | 2 -> TSInt | 3 -> TU8 | 4 -> TS8 | 5 -> TByte | 6 -> TTrk | 7 -> TTrkC | 8 -> TTrkMA | 9 -> TTrkCA | 10 -> TFlt | 11 -> TTrkCC | _ -> TTrkMC
+let ty_of_int = function 0 -> TBlob | 1 -> TUInt | 2 -> TSInt | 3 -> TU8 | 4 -> TS8 | 5 -> TByte | 6 -> TTrk | 7 -> TTrkC | 8 -> TTrkMA | 9 -> TTrkCA | 10 -> TFlt | 11 -> TTrkCC | 12 -> TTrkMC | _ -> TSw
 
 let zs l = String.concat " " (List.map (fun z -> string_of_int (int_of_z z)) l)
 let hex objs =
